@@ -85,6 +85,7 @@ def run(ctx):
     order_preserved(ctx, ctx.facts("effects.cpp", "A", ()))
     hex_escape(ctx, core)
     member_helpers(ctx, ctx.facts("effects.cpp", "A", ()))
+    dynamic_level_byte(ctx, core)
 
 
 def matrix_witness():
@@ -605,6 +606,39 @@ def hex_escape(ctx, facts):
                 text += x.get("str", "")
         ctx.ob("C04.R8b", "sanitize_non_printable_chars<%s>:escape-prefix" % (f.rec.get("targs") or ["?"])[0][:40], "\\x" in text,
                "the escape is introduced by backslash-x (literal text found in the function: %r)" % text[:12], fn=f)
+
+
+def dynamic_level_byte(ctx, core):
+    """R2g: the trailing dynamic-level byte is written by log_statement<_, true, ...> and read by the backend exactly when the
+    metadata level is Dynamic: every caller inside the library passes has_dynamic_log_level = true iff the metadata it hands over
+    has LogLevel::Dynamic (the macros are covered by C16.R1; these are the control requests and helper entry points)"""
+    n = 0
+    for f in core.fns:
+        if f.config != "A" or f.short.startswith("qv::") or f.rec.get("main"):
+            continue
+        if not (f.short.startswith("quill::LoggerImpl::") or f.short.startswith("quill::FrontendImpl::") or f.short.startswith("quill::detail::")):
+            continue
+        decls = f.var_decls()
+        for c in f.calls(r"^quill::LoggerImpl<.*>::log_statement<"):
+            m = re.search(r"::log_statement<(true|false), (true|false)", c["callee"])
+            if not m or len(c["args"]) < 2:
+                continue
+            dyn = m.group(2) == "true"
+            md = strip(c["args"][1], casts=True)
+            mv = None
+            if isnode(md) and md["k"] == "UnaryOperator" and md["op"] == "&":
+                mv = var_ref(md["sub"])
+            src = decls.get(mv, {}).get("init") if mv is not None else None
+            if not isnode(src):
+                continue  # metadata handed in from outside (the macro path): C16.R1
+            lv = [x["name"].split("::")[-1] for x in walk(src) if x["k"] == "DeclRefExpr" and x.get("dk") == "EnumConstant" and "LogLevel::" in x.get("name", "")]
+            if len(lv) != 1:
+                raise AnalysisBroken("%s: level of the metadata constructed for a control request not identified" % f.short)
+            n += 1
+            ctx.ob("C04.R2g", "%s:dynamic-level-byte" % short(f.name)[:110], dyn == (lv[0] == "Dynamic"),
+                   "log_statement<.., has_dynamic_log_level=%s> is called with metadata of level %s: the frontend appends the level byte "
+                   "iff the flag is true, the backend consumes it iff the level is Dynamic" % (str(dyn).lower(), lv[0]), loc=c["loc"], fn=f)
+    ctx.floor("C04.R2g", "control requests built inside the library", n, 8)
 
 
 def member_helpers(ctx, facts):
